@@ -103,6 +103,29 @@ class FSpec:
         return f"float({self.kind!r})"
 
 
+class RLESeq:
+    """run-length description of a list/tuple whose length is symbolic:
+    (seg_1 * n_1 ++ seg_2 * n_2 ++ ...) repeated `times` times; each segment is (value, count)."""
+
+    def __init__(self, segments, times=1, is_tuple=False):
+        self.segments = list(segments)
+        self.times = times
+        self.is_tuple = is_tuple
+
+    def __repr__(self):
+        return f"<rle {'tuple' if self.is_tuple else 'list'} {self.segments!r} x {self.times!r}>"
+
+
+class SymSet:
+    """a set whose elements are symbolic scalars; `items` are pairwise distinct on the current path"""
+
+    def __init__(self, items):
+        self.items = list(items)
+
+    def __repr__(self):
+        return f"<symset {self.items!r}>"
+
+
 class GenericColl:
     """a collection of arbitrary (unbounded) length described by ONE generic element: every element of the
     real collection is an instance of `elem`.  Produced by harness iterables and by comprehensions ranging
